@@ -243,9 +243,19 @@ def leaves(W, bv, t, bodies=None, depth=0, none_from=None):
         if callee == OPTION + "filter" and len(t[2]) == 2:
             # x.filter(p): every Some alternative of x may also become None (the predicate is checked by whoever needs it)
             out = []
+            from . import terms as _terms
+            clo = _closure_of(t[2][1])
+            pred = "?"
+            if clo is not None and clo[2] in W.by_id:
+                cbp = W.bv(clo[2])
+                pred = _terms.render(cbp, cbp.trace_local(0), W, {})
+            else:
+                pred = _terms.render(bv, t[2][1], W, {})
             for l in leaves(W, bv, t[2][0], bodies, depth + 1, none_from):
                 if l[0] == "some":
-                    out += [("none",), l]
+                    # the alternative survives only under the predicate: keep it visible (a third element), so that
+                    # `x.filter(p)` is never mistaken for `x`
+                    out += [("none",), ("some", l[1], (l[2] + " & " if len(l) > 2 else "") + pred)]
                 elif l[0] == "none":
                     out.append(l)
                 else:
@@ -451,6 +461,14 @@ def _inline_all(W, bv, t, keep=lambda name: False, _stack=(), _depth=0):
             from . import terms as _terms
             body = _inline_all(W, cv, _terms.annotate_names(cv, cv.trace_local(0)), keep, _stack + (cv.id,), _depth + 1)
             return simplify(lib.subst_params(body, args))
+        # a local closure bound to a variable and called: `let f = |d| ..; f(x)` is the closure's body at x
+        if lib.norm(t[1]) in ("std::ops::Fn::call", "std::ops::FnMut::call_mut", "std::ops::FnOnce::call_once") and len(args) == 2:
+            clo = _closure_of(args[0])
+            tup = _unref(args[1])
+            if clo is not None and clo[2] in W.by_id and clo[2] not in _stack and tup[0] == "agg" and tup[1] == "tuple":
+                cb = W.bv(clo[2])
+                body = _inline_all(W, cb, _ann(cb), keep, _stack + (clo[2],), _depth + 1)
+                return simplify(lib.subst_params(body, [clo] + list(tup[3])))
         return (t[0], t[1], args) + tuple(t[3:])
     return tuple(_inline_all(W, bv, x, keep, _stack, _depth + 1) if isinstance(x, (tuple, list)) else x for x in t)
 
@@ -464,7 +482,7 @@ def option_desc(W, bv, t, names=None):
         if l[0] == "none":
             out.add("None")
         elif l[0] == "some":
-            out.add("Some{%s}" % terms.render(bv, l[1], W, names or {}))
+            out.add("Some{%s}" % terms.render(bv, l[1], W, names or {}) + ("?[%s]" % l[2] if len(l) > 2 else ""))
         else:
             out.add("?" + terms.render(bv, l[1], W, names or {}))
     return "|".join(sorted(out))
